@@ -935,3 +935,119 @@ def rule_G9(prog):
             if problems:
                 r.find(fn.path, "bulk-removal:%s" % meth, "`%s`: %s" % (t.get("src", meth)[:70], "; ".join(problems)), file=fn.file, line=t["line"])
     return r
+
+
+# ------------------------------------------------------------------ G10: the position a slide returns is the position to go on from
+def rule_G10(prog):
+    r = RuleResult("G10", "sliding an op changes the list under the cursor (ops are merged, removed, inserted): the index "
+                          "returned by shift_diff_ops_up / shift_diff_ops_down is never discarded -- the caller goes on from it")
+    from .cursor import _op_locals, _rv_locals
+    targets = ("algorithms::compact::shift_diff_ops_up", "algorithms::compact::shift_diff_ops_down")
+    for fn in prog.user_fns():
+        if not fn.mir:
+            continue
+        m = fn.mir
+        used = set()
+        for b in m.blocks:
+            for s in b["stmts"]:
+                if s["k"] == "assign":
+                    used |= set(_rv_locals(s["rv"]))
+            t = b["term"]
+            if t["k"] == "call":
+                for a in t["args"]:
+                    used |= set(_op_locals(a))
+            elif t["k"] == "switch":
+                used |= set(_op_locals(t["discr"]))
+            elif t["k"] == "return":
+                used.add(0)
+        for bb, t in m.calls():
+            c = m.callee(t) or {}
+            if c.get("path") not in targets:
+                continue
+            r.instances += 1
+            d = t["dest"]["l"]
+            ok = d in used or d == 0
+            r.ob(ok, "%s: `%s` (line %d): returned index %s" % (fn.path, t.get("src", "")[:60], t["line"], "used" if ok else "DISCARDED"))
+            if not ok:
+                r.find(fn.path, "slide-result-dropped:%s" % c["path"].rsplit("::", 1)[-1],
+                       "`%s` discards the index returned by %s: the op may have merged with a neighbour or moved, so the "
+                       "caller continues from a stale position and skips or revisits ops" % (
+                           t.get("src", "")[:70], c["path"].rsplit("::", 1)[-1]), file=fn.file, line=t["line"])
+    return r
+
+
+# ------------------------------------------------------------------ G11: a hand-written flattening iterator loops
+def rule_G11(prog):
+    r = RuleResult("G11", "an iterator that expands a list of ops one op at a time (`AllChangesIter::next`: inner `ChangesIter` "
+                          "plus the remaining `ops`) fetches the next op in a LOOP (or by calling itself): an op that expands to "
+                          "nothing -- any number of them in a row -- must not end the iteration, so the inner `next()` and the "
+                          "fetch of the following op lie on a common cycle of the control-flow graph (private helpers and "
+                          "closures that do either are looked into)")
+    from .facts import term_str
+    FETCH = ("split_first", "first", "get", "split_at", "split_last", "iter")
+    memo = {}
+
+    def kinds_of(g, depth=0):
+        """{'inner', 'fetch'}: what a function body (with the helpers and closures it uses) does"""
+        if g.path in memo:
+            return memo[g.path]
+        memo[g.path] = set()
+        out = set()
+        gm = g.mir
+        for bb, t in gm.calls():
+            out |= kinds_call(g, t, depth)
+        memo[g.path] = out
+        return out
+
+    def kinds_call(g, t, depth):
+        gm = g.mir
+        c = gm.callee(t) or {}
+        out = set()
+        a0 = term_str(gm.expand(gm.resolve_operand(t["args"][0]), depth=3)) if t["args"] else ""
+        if c.get("trait") == "std::iter::Iterator" and c.get("method") == "next" and "Range" not in str(c.get("self_ty", "")):
+            tgt = c.get("resolved") or ""
+            if "ChangesIter" in tgt or "ChangesIter" in str(c.get("path_args", "")) or "current" in a0 or "iter" in a0:
+                out.add("inner")
+        if c.get("path", "").startswith("core::slice::<impl [") and _mentions_diffop(c.get("args")) and \
+                c.get("method", c.get("path", "").rsplit("::", 1)[-1]) in FETCH:
+            out.add("fetch")
+        if depth < 3:
+            h = prog.fn(c.get("resolved") or "") if c.get("resolved_local") else (prog.fn(c.get("path", "")) if c.get("local") else None)
+            if h is not None and h.mir and h.path != g.path:
+                out |= kinds_of(h, depth + 1)
+            for a in c.get("args", []) or []:
+                if isinstance(a, dict) and a.get("k") == "closure":
+                    cf = prog.fn(a.get("path", ""))
+                    if cf is not None and cf.mir:
+                        out |= kinds_of(cf, depth + 1)
+        return out
+
+    for fn in prog.user_fns():
+        if not fn.mir or fn.name != "next" or fn.kind == "Closure" or not fn.impl or (fn.impl.get("trait") or "") != "std::iter::Iterator":
+            continue
+        if not (fn.module.startswith("iter") or fn.module.startswith("text") or fn.module.startswith("udiff")):
+            continue
+        m = fn.mir
+        inner, fetch, selfcalls = [], [], []
+        for bb, t in m.calls():
+            c = m.callee(t) or {}
+            if (c.get("resolved") or c.get("path")) == fn.path:
+                selfcalls.append(bb)
+                continue
+            ks = kinds_call(fn, t, 0)
+            if "inner" in ks:
+                inner.append(bb)
+            if "fetch" in ks:
+                fetch.append(bb)
+        if not inner or not fetch:
+            continue
+        r.instances += 1
+        loops = m.loops()
+        ok = bool(selfcalls) or any(any(i in body for i in inner) and any(f in body for f in fetch) for h, body in loops)
+        r.ob(ok, "%s: inner next() in bb%s, op fetch in bb%s, %d loop(s)%s" % (fn.path, inner, fetch, len(loops), ", recursive" if selfcalls else ""))
+        if not ok:
+            r.find(fn.path, "flatten-without-loop",
+                   "%s expands a list of ops through an inner iterator but the inner `next()` and the fetch of the following op "
+                   "are not on a common loop (and the function does not call itself): a run of ops that expand to nothing ends "
+                   "the iteration early" % fn.path, file=fn.file, line=fn.line)
+    return r
